@@ -94,7 +94,7 @@ def run_N1(ctx, case):
         end = it.mem.load(cp, 4)
         if not is_c(end): raise Exception('symbolic code length')
         n = end - BASE; lens.append(n)
-        ok = 0 <= n <= 4 * case.get('maxwords', 12) and n % 4 == 0; q.n += 1; q.unsat += ok; q.sat += (not ok)
+        ok = 0 <= n <= 4 * case.get('maxwords', 64) and n % 4 == 0; q.n += 1; q.unsat += ok; q.sat += (not ok)
         if not ok: q.failed.append((tag + ': emitted %d bytes' % n, {})); return
         words = [it.mem.load(Ptr('code', BASE + k), 4) for k in range(0, n, 4)]
         for w_ in words:
@@ -374,7 +374,7 @@ def run_N5(ctx, case):
             elif not same: chk(False, 'x%d changed' % r_)
         chk(isinstance(m.sp, Ptr) and m.sp.obj == 'stack' and m.sp.off == STK, 'stack pointer restored')
         for (kd, obj, off_, nb) in m.accesses:
-            if obj == 'stack': chk(is_c(off_) and STK - 112 <= off_ and off_ + nb <= STK, 'stack access inside the 112-byte frame (%s)' % off_)
+            if obj == 'stack': chk(is_c(off_) and (m.min_sp if getattr(m, 'min_sp', None) is not None else STK) <= off_ and off_ + nb <= STK, 'stack access between the lowest stack pointer of the call and the entry stack pointer (%s)' % off_)
             elif obj not in ('code', 'cachemem', 'out'): chk(False, 'access to object %s' % obj)
             elif obj == 'code' and kd == 'store': chk(False, 'store into the code buffer')
         extent_checks(q, pc, mem, tag)
